@@ -22,7 +22,14 @@ def correspondence(ctx):
     ctx.rule = ("wlgen family (lists of any size, every scheme, constant/preset/recipe separators, boundary and exact tapes) plus complete product "
                 "cells on the real code: for small lists EVERY tuple (capitalisation choice, word indices, separator index vectors) is run, each index "
                 "realised by a randomly chosen raw word of its fibre. Every other wlgen case runs on a list that other recipes used first; 15% set SeparatorChar in addition to a separator function; tapes that run dry part-way; words and separators beyond 255 characters; synthetic lists of 65535..131073 words judged by the reference (index injectivity, documented draws). Non-trivial = every distinct cell tuple; wlgen cases with Length >= 2.")
-    ctx.wl_results = wlgen.run_wlgen_family(ctx, wlgen.gen_cases(ctx, 250 if ctx.tier == "quick" else 3000))
+    cases = wlgen.gen_cases(ctx, 250 if ctx.tier == "quick" else 3000)
+    # the empty string as a list entry is drawn like any other word (what the generator then emits for it is F7, C05/C06)
+    for l, cap, sep in ((["", "alpha", "beta", "gamma"], "none", ("char", "-")), (["x", "", "y"], "one", ("preset", "SFDigits1"))):
+        for kind in ("first", "last", "random", "exact", "boundary"):
+            cases.append({"list": l, "length": 3, "sep": sep, "cap": cap, "budget": chargen.DEFAULT_BUDGET,
+                          "words": wlgen.make_tape(ctx.rng, len(l), 3, sep, cap, kind),
+                          "meta": {"list": l, "corpus": "empty entry", "tape_kind": kind, "cap": cap, "sep": wlgen.sep_json(sep), "length": 3}})
+    ctx.wl_results = wlgen.run_wlgen_family(ctx, cases)
     ctx.wl_big = wlgen.run_big_lists(ctx)
     for c, a, b in ctx.wl_results:
         if c["length"] >= 2:
@@ -107,7 +114,7 @@ def reference_check(ctx):
         if d is None or d["outcome"] != "ok" or not order or order == "0":
             continue
         words = [core.unhx(x) for x in order.split(",")[1:]]
-        line = wlgen.wlgen_line(c["list"], c["length"], c["sep"], c["cap"], c["budget"], c["words"], shadow=c.get("shadow"))
+        line = wlgen.case_line(c)
         # the word indices 0..size-1 (each realised by a one-word generation on a scripted tape) must select size DIFFERENT
         # words, and for a synthetic list exactly its words: otherwise the words are not equally likely
         if len(set(words)) != len(words):
@@ -129,7 +136,7 @@ def reference_check(ctx):
             ctx.count("reference_undecided")
             continue
         if d["tokens"] != want:
-            ctx.violations.append({"case": c["meta"], "line": wlgen.wlgen_line(c["list"], c["length"], c["sep"], c["cap"], c["budget"], c["words"], shadow=c.get("shadow")), "observed": a[:400],
+            ctx.violations.append({"case": c["meta"], "line": wlgen.case_line(c), "observed": a[:400],
                                    "finding_key": "C04-reference", "what": "the password is not the one the documented draws select on this tape (each word, capitalised position and separator a fresh draw): expected %r" % (want[:8],)})
 
 
